@@ -256,6 +256,11 @@ def rest(ctx, chk):
     chk.floor("R12.1", 4 + 2 + 18, "constructor, from_labels and sampling-path pairs")
 
 
+def libmodel_len(idx):
+    from .. import libmodel
+    return libmodel.length(None, idx)
+
+
 def lockstep(sv, lv, bs, bl):
     """by_group: scores = concat(for g: S_g[I_g]), labels = concat(for g: [g for _ in I_g]) with S_g = base[labels_base == g]."""
     def unwrap(v):
@@ -275,6 +280,18 @@ def lockstep(sv, lv, bs, bl):
     want_base = App("getitem", (bs, compare("==", bl, g)))
     if not same(base, want_base):
         return False, "per-group scores %s are not %s" % (show(base, 100), show(want_base, 100))
+    if isinstance(xl, App) and xl.fn == "binop:Mult":
+        # [g] * len(I): len(I) copies of g
+        lst, cnt = xl.args
+        if isinstance(cnt, Tup):
+            lst, cnt = cnt, lst
+        if isinstance(lst, Tup) and len(lst.items) == 1 and lst.items[0] == g and same(cnt, App("len", (idx,))):
+            return True, "lock-step appends of group-g scores[I] and [g] * len(I)"
+        if isinstance(lst, Tup) and len(lst.items) == 1 and lst.items[0] == g:
+            cs = libmodel_len(idx)
+            if same(cnt, cs):
+                return True, "lock-step appends of group-g scores[I] and [g] * len(I)"
+        return False, "labels %s are not len(index) copies of the loop's group" % show(xl, 120)
     if not (isinstance(xl, App) and xl.fn == "forall" and len(xl.args[0].items) == 1):
         return None, "per-group labels not a comprehension: %s" % show(xl, 100)
     el, val = xl.args[0].items[0], xl.args[1]
